@@ -60,6 +60,10 @@ where
 
     #[inline(always)]
     fn last(&self) -> Option<T> {
+        if self.peak == T::min_value() {
+            // nothing has been delivered yet
+            return None;
+        }
         debug_assert!(self.max_drawdown.is_finite(), "value must be finite");
         Some(self.max_drawdown)
     }
